@@ -530,6 +530,70 @@ def expand(prog: 'object') -> list[str]:
             new_body = _drop_self_returns(new_body, target)
         return pre, new_body
 
+    # a new function handed over by reference as a completion callback (`f.then(helper)`, `f.add_done_callback(self._m)`)
+    # is spelled as the local callable it stands for: a lambda for an expression helper, a nested function otherwise
+    # (named as the inventory names the nested callback of that method, when it records one that is missing)
+    from kfv import localnames as _ln
+    inv_ = _ln.table()
+    for caller in list(funcs.values()):
+        if caller.parent is not None:
+            continue
+        q_ = caller.qualname
+        recorded = sorted({qq[len(q_) + len('.<locals>.'):].split('.')[0] for qq in inv_ if qq.startswith(q_ + '.<locals>.')})
+        for _own, blk in _stmt_blocks(caller.node, caller.node):
+            k = 0
+            while k < len(blk):
+                st_ = blk[k]
+                k += 1
+                if isinstance(st_, (ast.If, ast.For, ast.While, ast.With, ast.Try, ast.FunctionDef)):
+                    continue
+                for c_ in [n for n in ast.walk(st_) if isinstance(n, ast.Call) and isinstance(n.func, ast.Attribute) and n.func.attr in ('then', 'add_done_callback')
+                           and len(n.args) == 1 and not n.keywords]:
+                    ref = c_.args[0]
+                    h_ = None
+                    if isinstance(ref, ast.Name) and ref.id in by_name:
+                        cands = [x for x in by_name[ref.id] if x.cls is None]
+                        h_ = cands[0] if len(cands) == 1 else None
+                        drop_self = False
+                    elif isinstance(ref, ast.Attribute) and isinstance(ref.value, ast.Name) and ref.value.id == 'self' and ref.attr in by_name and caller.cls:
+                        cands = [x for x in by_name[ref.attr] if x.cls == caller.cls and x.kind == 'method']
+                        h_ = cands[0] if len(cands) == 1 else None
+                        drop_self = True
+                    if h_ is None or h_ is caller:
+                        continue
+                    a_ = h_.node.args
+                    params_ = [x.arg for x in a_.posonlyargs + a_.args]
+                    if drop_self:
+                        params_ = params_[1:]
+                    if len(params_) != 1 or a_.vararg or a_.kwarg or a_.kwonlyargs or a_.defaults:
+                        continue
+                    body_ = [copy.deepcopy(x) for x in h_.node.body]
+                    if body_ and isinstance(body_[0], ast.Expr) and isinstance(body_[0].value, ast.Constant):
+                        body_ = body_[1:]
+                    names_here = {n.id for n in ast.walk(caller.node) if isinstance(n, ast.Name)} | {n.name for n in ast.walk(caller.node) if isinstance(n, ast.FunctionDef)}
+                    if len(body_) == 1 and isinstance(body_[0], ast.Return) and body_[0].value is not None and not drop_self:
+                        lam = ast.Lambda(args=ast.arguments(posonlyargs=[], args=[ast.arg(arg=params_[0])], kwonlyargs=[], kw_defaults=[], defaults=[]), body=body_[0].value)
+                        c_.args[0] = ast.copy_location(lam, ref)
+                        ast.fix_missing_locations(c_)
+                        log.append(f'{caller.short}: callback {h_.short} passed by reference spelled as a lambda')
+                        touched_refs = True
+                        continue
+                    name_ = next((nm for nm in recorded if nm not in names_here), None) or f'_kfv_cb_{h_.name.lstrip("_")}'
+                    if name_ in names_here:
+                        continue
+                    d_ = ast.FunctionDef(name=name_, args=ast.arguments(posonlyargs=[], args=[ast.arg(arg=params_[0])], kwonlyargs=[], kw_defaults=[], defaults=[]),
+                                         body=body_ or [ast.Pass()], decorator_list=[], returns=None, type_comment=None)
+                    if hasattr(ast, 'TypeVar'):
+                        d_.type_params = []      # type: ignore[attr-defined]
+                    ast.copy_location(d_, st_)
+                    for n in ast.walk(d_):
+                        if hasattr(n, 'lineno'):
+                            n._kfv_mod = h_.module      # type: ignore[attr-defined]
+                    c_.args[0] = ast.copy_location(ast.Name(id=name_, ctx=ast.Load()), ref)
+                    blk.insert(k - 1, d_)
+                    ast.fix_missing_locations(d_)
+                    k += 1
+                    log.append(f'{caller.short}: callback {h_.short} passed by reference spelled as the nested function {name_}')
     # closures of new helpers: `def inner(): return e` (no parameters, an expression body, only ever called) is e
     for h in new.values():
         if _expand_closures(h.node):
